@@ -1,0 +1,60 @@
+//! Verification hook (only compiled with `--cfg capy_verif`): exposes the
+//! crate-private layout tables and type-id encoding to the /verif harnesses.
+use hir::common::Ty;
+use internment::Intern;
+
+use crate::layout::{self, GetLayoutInfo};
+
+#[derive(Debug, Clone)]
+pub struct LayoutOut {
+    pub size: u32,
+    pub align: u32,
+    pub stride: u32,
+    pub struct_offsets: Option<Vec<u32>>,
+    pub discriminant_offset: Option<u32>,
+}
+
+/// Runs `calc_layouts` on `tys` and reads the tables back.
+pub fn layout_of(tys: &[Intern<Ty>], pointer_bit_width: u32) -> Vec<LayoutOut> {
+    layout::calc_layouts(tys.iter().copied(), pointer_bit_width);
+    tys.iter()
+        .map(|ty| LayoutOut {
+            size: ty.size(),
+            align: ty.align(),
+            stride: ty.stride(),
+            struct_offsets: ty.struct_layout().map(|l| l.offsets().to_vec()),
+            discriminant_offset: ty.enum_layout().map(|l| l.discriminant_offset()),
+        })
+        .collect()
+}
+
+pub fn padding_needed_for(offset: u32, align: u32) -> u32 {
+    layout::padding_needed_for(offset, align)
+}
+
+/// C18: runs `to_type_id` over `tys` in order with a fresh `MetaTyData`
+/// (layouts are calculated first, `Ty::Any` reads them) and returns each id,
+/// or the panic message.
+pub fn type_ids_of(tys: &[Intern<Ty>], pointer_bit_width: u32) -> Vec<Result<u32, String>> {
+    use crate::convert::ToTyId;
+    use cranelift::prelude::types;
+
+    let _ = std::panic::catch_unwind(|| layout::calc_layouts(tys.iter().copied(), pointer_bit_width));
+    let pointer_ty = if pointer_bit_width == 32 { types::I32 } else { types::I64 };
+    let mut meta = crate::compiler::MetaTyData::default();
+    tys.iter()
+        .map(|ty| {
+            let ty = *ty;
+            std::panic::catch_unwind(std::panic::AssertUnwindSafe(|| ty.to_type_id(&mut meta, pointer_ty)))
+                .map_err(|e| {
+                    if let Some(s) = e.downcast_ref::<&str>() {
+                        s.to_string()
+                    } else if let Some(s) = e.downcast_ref::<String>() {
+                        s.clone()
+                    } else {
+                        "?".to_string()
+                    }
+                })
+        })
+        .collect()
+}
